@@ -197,7 +197,11 @@ fn gen_parts(rng: &mut Rng, n_comments: usize, n_meta: usize, expr: &str) -> Vec
             Part::Meta { key, text, value: None, trailing_comment: None }
         } else {
             // alternative spellings of constants: hex, escapes, trailing comma, redundant parentheses are NOT constants' syntax … (parenthesised literal is still a literal node)
-            let (text, v) = match rng.below(5) {
+            let (text, v) = match rng.below(8) {
+                // string constants written over several lines, with lines that look like comments, metadata or the end of an item
+                5 => ("\"first line\n// second line\"".to_string(), Value::String("first line\n// second line".into())),
+                6 => ("\"a\n  // b \\\" c\n@k: i1;\n// d\"".to_string(), Value::String("a\n  // b \" c\n@k: i1;\n// d".into())),
+                7 => ("[\"x\n//y\", {k: \"p\n// q\n\"}]".to_string(), Value::Vec(vec![Value::String("x\n//y".into()), Value::Map([("k".to_string(), Value::String("p\n// q\n".into()))].into_iter().collect())])),
                 0 => ("0xff".to_string(), Value::Int(255)),
                 1 => ("\"\\u{41}\\n\"".to_string(), Value::String("A\n".into())),
                 2 => ("[i1, i2,]".to_string(), Value::Vec(vec![Value::Int(1), Value::Int(2)])),
